@@ -1,7 +1,7 @@
 (* C11 — loading a subset of word fields never changes the fields that were requested.
    Only the property theorems; each is closed by `exact` of a lemma of Proofs/CodecProofs.v. *)
 From Coq Require Import List NArith ZArith.
-From SudachiVerif Require Import Model.Codec Proofs.CodecProofs.
+From SudachiVerif Require Import Model.Codec Proofs.CodecProofs Proofs.CodecLexSetProofs.
 From SudachiVerif Require Generated.FieldOrder.
 Open Scope N_scope.
 
@@ -66,3 +66,15 @@ Theorem C11_set_order_irrelevant :
     exists iS, get_word_info lx has_syn wid (t_subset t) = Some iS /\ accessor a iS = accessor a iA.
 Proof. exact (set_order_irrelevant C11_reader_order C11_order_sweep). Qed.
 Print Assumptions C11_set_order_irrelevant.
+
+(* the same through LexiconSet::get_word_info_subset, for a word of ANY dictionary of the stack (dictionary id d,
+   num_system_pos n, pos offset o): POS re-basing and the re-stamping of split / word-structure references of user
+   dictionaries are each guarded by their own flag of the loaded subset, so every requested accessor (POS id, A splits,
+   B splits, word structure included) is what it is after a full load *)
+Theorem C11_lexset_accessor_preserved :
+  forall lx has_syn d n o wid L a iA,
+  lex_ok lx -> subset_of L ALL -> deps_loaded L a ->
+  lexset_get lx has_syn d n o wid ALL = Some iA ->
+  exists iS, lexset_get lx has_syn d n o wid L = Some iS /\ accessor a iS = accessor a iA.
+Proof. exact (lexset_accessor_preserved C11_reader_order). Qed.
+Print Assumptions C11_lexset_accessor_preserved.
